@@ -13,6 +13,12 @@ Theorem C08_event_probability_from_cdf : forall bt t u a b,
   Fin (match bt with Below | BelowEq => b - 0 | Above | AboveEq => 1 - a | _ => b - a end).
 Proof. exact event_prob. Qed.
 
+(* the event indicator paired with it: missing for a missing observation, 0 or 1 for a present one *)
+Theorem C08_missing_observation_has_missing_indicator : forall iv, get_p_obs XR iv NaN = NaN.
+Proof. exact missing_obs_missing_indicator. Qed.
+Theorem C08_present_observation_has_01_indicator : forall iv o, exists b, get_p_obs XR iv (Fin o) = of_bool XR b.
+Proof. exact present_obs_indicator. Qed.
+
 (* Brier score, uncertainty and skill score equal their definitions on vectors of any length *)
 Theorem C08_brier_score_definition : forall obs p, length obs = length p -> obs <> [] ->
   Bs_core XR (F obs) (F p) = Fin (rmean (map sqr (map2r Rminus p obs))).
@@ -77,6 +83,7 @@ Print Assumptions C08_coverage_counts_observations_inside_the_quantile_interval.
 Print Assumptions C08_brier_skill_score_definition.
 Print Assumptions C08_probability_in_exactly_one_bin.
 Print Assumptions C08_missing_members_ignored.
+Print Assumptions C08_missing_observation_has_missing_indicator.
 
 (* the Murphy decomposition BS = REL - RES + UNC, bin by bin: for the observations o of the cases in one probability bin
    whose forecasts all equal p, and the overall observed frequency obar,
